@@ -176,6 +176,14 @@ def run_tridi(form, d, e, b, overwrite):
                 return 'b-mutated'
         if not (np.array_equal(d0, d) and np.array_equal(e0, e)):
             return 'input-mutated'
+        # the same d, e arrays must serve a second solve (a form that aliases its work vectors onto the
+        # caller's arrays is exposed here even if it restores nothing)
+        b1 = b.copy()
+        x2 = fn(d0, e0, b1, overwrite_b=False)
+        if x2 is None or not np.array_equal(np.asarray(x2), np.asarray(x)):
+            return 'second-solve-differs'
+        if not (np.array_equal(d0, d) and np.array_equal(e0, e) and np.array_equal(b1, b)):
+            return 'input-mutated'
         return 'ok ' + flist(x)
     return common.call(go)
 
@@ -255,9 +263,15 @@ def admissible(rng, tier):
         return N, NW, K
 
 
-def dpss_call(N, NW, K, **kw):
-    import nitime.utils as u
-    v, e = u.dpss_windows(N, NW, K, **kw)
+def dpss_call(N, NW, K, via=None, **kw):
+    if via == 'purepy':      # the re-executed utils.py whose tridisolve is the pure-Python fallback
+        u = purepy_module()
+    else:
+        import nitime.utils as u
+    import warnings
+    with warnings.catch_warnings():
+        warnings.simplefilter('ignore')      # the fallback divides numpy floats: a zero pivot warns instead of raising
+        v, e = u.dpss_windows(N, NW, K, **kw)
     return np.asarray(v, dtype='d'), np.asarray(e, dtype='d')
 
 
@@ -309,7 +323,7 @@ def cases(rng, tier, seed):
     # ---- dpss grid
     pts, seen = [], set()
     want = 400 if big else 40
-    for corner in [(8, 1, 2), (9, 1.5, 3), (31, 7.5, 15), (64, 8, 16), (100, 2, 4), (33, 8, 16)]:
+    for corner in [(8, 1, 2), (9, 1.5, 3), (11, 2, 4), (31, 7.5, 15), (64, 8, 16), (100, 2, 4), (33, 8, 16), (65, 4, 8), (1001, 3, 6)]:
         pts.append(corner)
         seen.add(corner)
     while len(pts) < want:
@@ -428,8 +442,9 @@ def check_dpss(m, certs, case=None):
     """all per-run certificates for one (N, NW, K[, interp]) point; certs counts checks done"""
     from scipy.signal.windows import dpss as ref_dpss
     N, NW, K = m['N'], m['NW'], m['K']
-    rep = {k: m[k] for k in m if k in ('kind', 'N', 'NW', 'K', 'M', 'interp', 'sub')}
-    tag = 'N=%d NW=%s K=%d' % (N, NW, K)
+    rep = {k: m[k] for k in m if k in ('kind', 'N', 'NW', 'K', 'M', 'interp', 'sub', 'via')}
+    via = m.get('via')
+    tag = 'N=%d NW=%s K=%d%s' % (N, NW, K, ' (through the pure-Python tridisolve)' if via else '')
 
     def c(name):
         certs[name] = certs.get(name, 0) + 1
@@ -459,7 +474,7 @@ def check_dpss(m, certs, case=None):
         if np.abs(nrm - 1).max() > 1e-10:
             return fail('dpss/interp/unit-norm', 'interpolated tapers (%s, interp_from=%d, kind=%s) have norms %s' % (tag, m['M'], kind, nrm.tolist()[:4]), rep, case)
         return None
-    r = common.call(lambda: dpss_call(N, NW, K))
+    r = common.call(lambda: dpss_call(N, NW, K, via=via))
     if isinstance(r, str):
         if r == 'err ZeroDivisionError':
             return fail('dpss/inverse-iteration/zero-pivot', 'dpss_windows(%s) raises ZeroDivisionError: the inverse iteration shifts by the '
@@ -492,6 +507,11 @@ def check_dpss(m, certs, case=None):
             if np.abs(top - e).max() > 1e-7:
                 return fail('dpss/kth-eigenvalue', '%s: returned concentrations %s are not the %d largest eigenvalues %s of the sinc kernel' % (
                     tag, e.tolist(), K, top.tolist()), rep, case)
+    c('symmetry')
+    sgn = np.array([1.0 if k % 2 == 0 else -1.0 for k in range(K)])[:, None]
+    asym = np.abs(v[:, ::-1] - sgn * v).max()
+    if asym > 1e-7:
+        return fail('dpss/symmetry', '%s: taper k is not (-1)^k-symmetric about the centre: max deviation %.3g' % (tag, asym), rep, case)
     c('sign_even')
     for k in range(0, K, 2):
         if not v[k].sum() > 0:
@@ -531,8 +551,15 @@ def oracle(rng, tier, seed, focus, cases_=None):
             f = check_dpss(m, certs, c)
         if f:
             fails.append(f)
-    # interp_kind options: unit norm only (the interpolants are external)
     big = tier == 'thorough'
+    # the same certificates with dpss_windows running on the pure-Python tridisolve
+    n_fb = 0
+    for key in sorted(k for k in seen_pts if k[3] is None and k[4] is None and k[0] <= (1024 if big else 300))[:(120 if big else 25)]:
+        n_fb += 1
+        f = check_dpss({'kind': 'dpss', 'N': key[0], 'NW': key[1], 'K': key[2], 'via': 'purepy'}, certs)
+        if f:
+            fails.append(f)
+    # interp_kind options: unit norm only (the interpolants are external)
     for i in range(60 if big else 8):
         N = rng.randint(64, 2048 if big else 400)
         NW = rng.choice([1, 1.5, 2, 2.5, 3, 4])
@@ -542,7 +569,7 @@ def oracle(rng, tier, seed, focus, cases_=None):
         f = check_dpss({'kind': 'dpss', 'N': N, 'NW': NW, 'K': K, 'M': M, 'interp': kind}, certs)
         if f:
             fails.append(f)
-    stats = {'tridisolve_dense_checks': n_t, 'tridisolve_exact_checks': n_q, 'dpss_points': n_d,
+    stats = {'dpss_points_through_fallback': n_fb, 'tridisolve_dense_checks': n_t, 'tridisolve_exact_checks': n_q, 'dpss_points': n_d,
              'certificate_checks': certs, 'certificate_checks_total': sum(certs.values()),
              'skipped_ill_conditioned': getattr(cases, 'skipped_ill_conditioned', 0), 'failed': len(fails),
              'rebuilt_so': 'ok' if _forms.get('rebuilt') else _forms.get('rebuilt_err', 'not built')}
